@@ -90,13 +90,18 @@ func (e *aExpr) size() int {
 	return n
 }
 
-// drawExpr draws a tree with at most *budget further nodes.
-func (c *aCase) drawExpr(label string, budget *int, depth int) *aExpr {
+// drawExpr draws a tree of at most maxNodes (>= 1) nodes.
+func (c *aCase) drawExpr(label string, maxNodes int, depth int) *aExpr {
 	e := &aExpr{}
-	*budget--
-	if *budget <= 0 || depth == 0 {
+	rest := maxNodes - 1
+	switch {
+	case rest <= 0 || depth == 0:
 		e.Op = rapid.IntRange(aOpLeaf, aOpFoldM).Draw(c.rt, label+".leafop")
-	} else {
+	case rest == 1:
+		e.Op = rapid.IntRange(aOpMap, aOpTraverse).Draw(c.rt, label+".op")
+	case rest == 2:
+		e.Op = rapid.IntRange(aOpMap, aOpFlatMap2).Draw(c.rt, label+".op")
+	default:
 		e.Op = rapid.IntRange(aOpMap, aOpCount-1).Draw(c.rt, label+".op")
 	}
 	q := func(l string) string { return label + "." + l }
@@ -137,15 +142,18 @@ func (c *aCase) drawExpr(label string, budget *int, depth int) *aExpr {
 		e.Xs = rapid.SliceOfN(kit.TinyInt(), 0, 3).Draw(c.rt, q("xs"))
 		e.K = dk("k")
 	}
-	for i := 0; i < aOpKids[e.Op]; i++ {
-		e.Kids = append(e.Kids, c.drawExpr(fmt.Sprintf("%s.%d", label, i), budget, depth-1))
+	nk := aOpKids[e.Op]
+	for i := 0; i < nk; i++ {
+		kid := c.drawExpr(fmt.Sprintf("%s.%d", label, i), rest-(nk-i-1), depth-1)
+		rest -= kid.size()
+		e.Kids = append(e.Kids, kid)
 	}
 	return e
 }
 
 func (c *aCase) expr(label string) *aExpr {
 	budget := rapid.IntRange(2, kit.Pick(6, 12)).Draw(c.rt, label+".nodes")
-	e := c.drawExpr(label, &budget, 4)
+	e := c.drawExpr(label, budget, 5)
 	c.note(label, e)
 	c.rec.Label(fmt.Sprintf("nodes=%d", e.size()))
 	return e
@@ -199,4 +207,4 @@ func (c *aCase) exprM(e *aExpr) aM {
 	panic("unknown op")
 }
 
-const aRuleExpr = "expression tree of 2..6 (thorough: 12) combinator nodes, every node of type M[int]: leaves are operands per constructor, Compose(f,g)(b), FoldM(xs,z,f); inner nodes Map, FlatMap, Flatten∘Map, Replace, LiftM, Method1, FlatMethod1, Flap∘Map, FlatMap∘TraverseSlice, Map2, Ap∘Map, Map∘Zip, FlatMap2, LiftA3, Map∘Sequence with drawn table functions; the tree is evaluated with the library and with the reference definitions over the harness' own unit/bind (StateT: on 2 generated initial states); non-trivial iff some leaf is not a success or some table has a failing row; distinct by printed tree"
+const aRuleExpr = "expression tree of 2..6 (thorough: 2..12) combinator nodes, every node of type M[int]: leaves are operands per constructor, Compose(f,g)(b), FoldM(xs,z,f); inner nodes Map, FlatMap, Flatten∘Map, Replace, LiftM, Method1, FlatMethod1, Flap∘Map, FlatMap∘TraverseSlice, Map2, Ap∘Map, Map∘Zip, FlatMap2, LiftA3, Map∘Sequence with drawn table functions; the tree is evaluated with the library and with the reference definitions over the harness' own unit/bind (StateT: on 2 generated initial states); non-trivial iff some leaf is not a success or some table has a failing row; distinct by printed tree"
